@@ -302,6 +302,13 @@ pub fn run_salt(scn: &Scenario, ctx: &mut Ctx) {
                     if after != before + 1 {
                         ctx.violate("C17.found", format!("the salted assertion is not found by its predicate ({} before, {} after)", before, after));
                     }
+                    // ... also when a holder has elided the predicate inside it (found by digest)
+                    if let Ok(hidden) = guarded(|| s1.elide_removing_target(&p)) {
+                        if hidden.assertions_with_predicate(p.clone()).len() != after {
+                            ctx.violate("C17.found", "the salted assertion is no longer found by its predicate once that predicate is elided".to_string());
+                        }
+                        ctx.probe("salted-found-through-elided-predicate");
+                    }
                     // the outer envelope got no salt of its own
                     let outer_salts_before = doc.assertions_with_predicate(known_values::SALT).len();
                     let outer_salts_after = s1.assertions_with_predicate(known_values::SALT).len();
@@ -1091,6 +1098,21 @@ pub fn run_attach(scn: &Scenario, ctx: &mut Ctx) {
                         }
                     }
                     Err(p) => ctx.violate_sig("C16.no-panic", format!("the Attachments container panicked: {}", p), p),
+                }
+                // a holder who elides the 'attachment' predicate itself hides nothing from the query (found by digest)
+                if let Some(rx2) = transmit(ctx, &rx.elide_removing_target(&Envelope::new(known_values::ATTACHMENT))) {
+                    ctx.checked();
+                    ctx.probe("attachment-predicate-obscured");
+                    match guarded(|| rx2.attachments()) {
+                        Ok(Ok(list)) => {
+                            let got: BTreeSet<_> = list.iter().filter_map(triple).collect();
+                            if got != model {
+                                ctx.violate("C19.all", format!("with the 'attachment' predicate elided, attachments() returns {} of the {} attachments", got.len(), model.len()));
+                            }
+                        }
+                        Ok(Err(e)) => ctx.violate("C19.all", format!("with the 'attachment' predicate elided, attachments() fails: {}", e)),
+                        Err(p) => ctx.violate_sig("C16.no-panic", format!("attachments() panicked with an elided predicate: {}", p), p),
+                    }
                 }
                 // validation asked of one assertion directly: a well-formed attachment object is an attachment only under
                 // the 'attachment' predicate
